@@ -6,9 +6,11 @@ NT_RULE = ("runs are generated from one seed each (swarm-drawn configuration, wo
            "distinct = distinct trace hash over all scheduling points")
 
 
-def S(scenario, quick, thorough, label="", wall=60, **params):
-    return {"scenario": scenario, "runs": {"quick": quick, "thorough": thorough}, "label": label,
-            "params": params, "wall": wall}
+def S(scenario, quick, thorough, label="", wall=None, **params):
+    d = {"scenario": scenario, "runs": {"quick": quick, "thorough": thorough}, "label": label, "params": params}
+    if wall is not None:
+        d["wall"] = wall  # otherwise the driver's default wall-clock watchdog applies
+    return d
 
 
 PLANS = {
